@@ -652,4 +652,103 @@ theorem pending_judgement_is_conservative :
     (esub (.sym 0) 1 (.evar 0)).eFresh 0 = false ∧ (substE 1 (.evar 0) (.sym 0)).eFresh 0 = true := by decide
 
 
+/-! ## polarity: the positivity / negativity judgements on a pending substitution are sound for the resolved pattern -/
+
+/-- on concrete patterns a set variable that does not occur free occurs neither negatively nor positively -/
+theorem pos_ng_of_sFresh (s : VId) : ∀ q : Pat, concrete q = true → q.sFresh s = true → q.pos s = true ∧ q.ng s = true := by
+  intro q; induction q with
+  | imp l r ihl ihr => intro hc h; simp [concrete] at hc; simp [sFresh] at h
+                       have a := ihl hc.1 h.1; have b := ihr hc.2 h.2; simp [pos, ng, a, b]
+  | app l r ihl ihr => intro hc h; simp [concrete] at hc; simp [sFresh] at h
+                       have a := ihl hc.1 h.1; have b := ihr hc.2 h.2; simp [pos, ng, a, b]
+  | ex y p ih => intro hc h; simp [concrete] at hc; simp [sFresh] at h; have a := ih hc h; simp [pos, ng, a]
+  | mu Y p ih => intro hc h; simp [concrete] at hc; simp [sFresh] at h
+                 rcases h with h | h
+                 · simp [pos, ng, h]
+                 · have a := ih hc h; simp [pos, ng, a]
+  | svar Y => intro _ h; simp [sFresh] at h; simp [pos, ng, h]
+  | evar _ => intro _ _; simp [pos, ng]
+  | sym _ => intro _ _; simp [pos, ng]
+  | _ => intro hc; simp [concrete] at hc
+
+/-- MONOTONICITY, the reason behind the `SSubst` arms of `positive`/`negative` (lib.rs:217-281): whenever the checker judges
+`s` positive (negative) in the deferred `p[plug/X]`, `s` is positive (negative) in the resolved textbook pattern -/
+theorem pending_ssubst_pos_ng_sound (s X : VId) (plug : Pat) (hpc : concrete plug = true) :
+    ∀ p : Pat, concrete p = true →
+      ((ssub p X plug).pos s = true → (substS X plug p).pos s = true) ∧
+      ((ssub p X plug).ng s = true → (substS X plug p).ng s = true) := by
+  have hf : plug.sFresh s = true → plug.pos s = true ∧ plug.ng s = true := pos_ng_of_sFresh s plug hpc
+  intro p; induction p with
+  | evar _ => intro _; simp [substS, pos, ng]
+  | sym _ => intro _; simp [substS, pos, ng]
+  | svar Y =>
+    intro _; simp only [substS]
+    by_cases hY : Y = X
+    · subst hY; simp only [if_true]; simp [pos, ng]; grind
+    · simp only [hY, if_false]; simp [pos, ng]; grind
+  | imp l r ihl ihr =>
+    intro hc; simp [concrete] at hc
+    have a := ihl hc.1; have b := ihr hc.2
+    simp [pos, ng, substS] at a b ⊢; grind
+  | app l r ihl ihr =>
+    intro hc; simp [concrete] at hc
+    have a := ihl hc.1; have b := ihr hc.2
+    simp [pos, ng, substS] at a b ⊢; grind
+  | ex y q ih =>
+    intro hc; simp [concrete] at hc
+    have a := ih hc
+    simp [pos, ng, substS] at a ⊢; grind
+  | mu Y q ih =>
+    intro hc; simp [concrete] at hc
+    have a := ih hc
+    simp only [substS]
+    by_cases hY : Y = X
+    · subst hY; simp [pos, ng]; grind
+    · simp only [hY, if_false]; simp [pos, ng] at a ⊢; grind
+  | _ => intro hc; simp [concrete] at hc
+
+/-- the `ESubst` arms of `positive`/`negative`: the plug must not contain `s` at all, and then polarity is kept -/
+theorem pending_esubst_pos_ng_sound (s x : VId) (plug : Pat) (hpc : concrete plug = true) :
+    ∀ p : Pat, concrete p = true →
+      ((esub p x plug).pos s = true → (substE x plug p).pos s = true) ∧
+      ((esub p x plug).ng s = true → (substE x plug p).ng s = true) := by
+  have hf : plug.sFresh s = true → plug.pos s = true ∧ plug.ng s = true := pos_ng_of_sFresh s plug hpc
+  intro p; induction p with
+  | evar y =>
+    intro _; simp only [substE]
+    by_cases hy : y = x
+    · subst hy; simp only [if_true]; simp [pos, ng]; grind
+    · simp only [hy, if_false]; simp [pos, ng]
+  | sym _ => intro _; simp [substE, pos, ng]
+  | svar Y => intro _; simp [substE, pos, ng]; grind
+  | imp l r ihl ihr =>
+    intro hc; simp [concrete] at hc
+    have a := ihl hc.1; have b := ihr hc.2
+    simp [pos, ng, substE] at a b ⊢; grind
+  | app l r ihl ihr =>
+    intro hc; simp [concrete] at hc
+    have a := ihl hc.1; have b := ihr hc.2
+    simp [pos, ng, substE] at a b ⊢; grind
+  | mu Y q ih =>
+    intro hc; simp [concrete] at hc
+    have a := ih hc
+    simp [pos, ng, substE] at a ⊢; grind
+  | ex y q ih =>
+    intro hc; simp [concrete] at hc
+    have a := ih hc
+    simp only [substE]
+    by_cases hy : y = x
+    · subst hy; simp [pos, ng]; grind
+    · simp only [hy, if_false]; simp [pos, ng] at a ⊢; grind
+  | _ => intro hc; simp [concrete] at hc
+
+/-- non-vacuity: the polarity hypothesis is met by μ-bodies the generator really builds (X positive in `(X → ⊥) → ⊥`-style
+nesting), and needed: substituting a negative occurrence of s for a positive X must not be judged positive -/
+example : (ssub (.imp (.imp (.svar 0) (.sym 0)) (.sym 0)) 0 (.svar 1)).pos 1 = true ∧
+    (substS 0 (.svar 1) (.imp (.imp (.svar 0) (.sym 0)) (.sym 0))).pos 1 = true := by decide
+theorem polarity_flip_is_rejected :
+    (ssub (.imp (.svar 0) (.sym 0)) 0 (.svar 1)).pos 1 = false ∧
+    (substS 0 (.svar 1) (.imp (.svar 0) (.sym 0))).pos 1 = false := by decide
+
+
 end C11
